@@ -2,7 +2,6 @@ package p16
 
 import (
 	"encoding/json"
-	"flag"
 	"fmt"
 	"io"
 	"os"
@@ -30,14 +29,22 @@ func TestMain(m *testing.M) {
 	// native fuzzing writes crashers to ./testdata/fuzz/<Target>; nothing may be written below
 	// /repo, so a fuzzing run (coordinator and its fuzz workers) moves to $VERIF_OUT first.
 	// (package init of pkg/util, which needs cwd=/repo, has already run.)
+	fuzzing, fuzzWorker := false, false
 	for _, a := range os.Args[1:] {
-		if strings.HasPrefix(a, "-test.fuzz=") || a == "-test.fuzz" || strings.HasPrefix(a, "-test.fuzzworker") {
-			_ = os.Chdir(vlib.OutDir())
-			break
+		if strings.HasPrefix(a, "-test.fuzz=") || a == "-test.fuzz" {
+			fuzzing = true
+		}
+		if strings.HasPrefix(a, "-test.fuzzworker") {
+			fuzzWorker = true
 		}
 	}
-	_ = flag.CommandLine
+	if fuzzing || fuzzWorker {
+		_ = os.Chdir(vlib.OutDir())
+	}
 	code := m.Run()
+	if fuzzing && !fuzzWorker && !judgeSuspects() && code == 0 {
+		code = 1
+	}
 	pool.close()
 	vlib.Flush()
 	os.Exit(code)
@@ -270,21 +277,61 @@ func evaluate(chk string, c *Case, res *Result) *verdict {
 			return &verdict{sig, fmt.Sprintf("globals that must be nil inside the sandbox are reachable: %v", rp.Globals)}
 		}
 	}
-	// ---- corpus expectations
+	// ---- corpus expectations. The VM deadline is wall time: on a starved machine a harmless
+	// script can run into it. Such a run is repeated before its outcome is held against it.
+	if v := expectationVerdict(c, res); v != nil {
+		for i := 0; v != nil && i < confirmRuns && hasFlag(res.Resp, "deadline") && !strings.Contains(c.ErrContains, "deadline"); i++ {
+			vlib.Class(chk, "timing:deadline-under-load-rerun")
+			r := pool.run(req, true)
+			if r.Resp == nil {
+				break
+			}
+			res = r
+			v = expectationVerdict(c, res)
+		}
+		if v != nil {
+			return v
+		}
+		rp = res.Resp
+	}
+	// ---- oracle 5: round trip (identity scripts need microseconds; a deadline error means the
+	// worker was starved, so the run is repeated)
+	for i := 0; c.RoundTrip != "" && hasFlag(rp, "deadline") && i < confirmRuns; i++ {
+		vlib.Class(chk, "timing:deadline-under-load-rerun")
+		if r := pool.run(req, true); r.Resp != nil {
+			rp = r.Resp
+		}
+	}
+	if c.RoundTrip != "" {
+		if v := roundTripVerdict(c, rp); v != nil {
+			return v
+		}
+	}
+	return nil
+}
+
+func hasFlag(rp *Response, f string) bool {
+	if rp == nil {
+		return false
+	}
+	for _, x := range rp.ErrFlags {
+		if x == f {
+			return true
+		}
+	}
+	return false
+}
+
+func expectationVerdict(c *Case, res *Result) *verdict {
+	rp := res.Resp
 	if c.Expect != "" && c.Expect != rp.Outcome {
-		return &verdict{"corpus-expectation", fmt.Sprintf("%s: expected outcome %q, got %q (json=%s err=%s)", c.Name, c.Expect, rp.Outcome, clip(rp.JSON, 200, 0), clip(rp.Err, 300, 0))}
+		return &verdict{"corpus-expectation", fmt.Sprintf("%s: expected outcome %q, got %q (json=%s err=%s) (%s)", c.Name, c.Expect, rp.Outcome, clip(rp.JSON, 200, 0), clip(rp.Err, 300, 0), describeTiming(res))}
 	}
 	if c.ErrContains != "" && !strings.Contains(rp.Err, c.ErrContains) {
 		return &verdict{"corpus-expectation", fmt.Sprintf("%s: expected an error containing %q, got outcome=%s err=%s", c.Name, c.ErrContains, rp.Outcome, clip(rp.Err, 300, 0))}
 	}
 	if c.JSONEquals != "" && rp.JSON != c.JSONEquals {
-		return &verdict{"corpus-expectation", fmt.Sprintf("%s: expected result %s, got outcome=%s json=%s err=%s", c.Name, c.JSONEquals, rp.Outcome, clip(rp.JSON, 300, 0), clip(rp.Err, 300, 0))}
-	}
-	// ---- oracle 5: round trip
-	if c.RoundTrip != "" {
-		if v := roundTripVerdict(c, rp); v != nil {
-			return v
-		}
+		return &verdict{"corpus-expectation", fmt.Sprintf("%s: expected result %s, got outcome=%s json=%s err=%s (%s)", c.Name, c.JSONEquals, rp.Outcome, clip(rp.JSON, 300, 0), clip(rp.Err, 300, 0), describeTiming(res))}
 	}
 	return nil
 }
